@@ -68,3 +68,21 @@ func (l *liveDB) exec(q string) error {
 	_, err := l.db.ExecContext(context.Background(), q)
 	return err
 }
+
+// inspectedDesired: the desired state as `InspectSchema` of a real database on which the spec was created
+// with the harness' own DDL (what `--to sqlite://other.db` or `--to file://schema.sql --dev-url ...` hands to
+// the differ): foreign keys without a name carry SQLite's numeric ids, defaults and expressions are in
+// their inspected spelling.
+func inspectedDesired(b Schema) (*schema.Schema, error) {
+	l, err := openDB("", false, false)
+	if err != nil {
+		return nil, err
+	}
+	defer l.Close()
+	for _, st := range rawSchema(b) {
+		if err := l.exec(st); err != nil {
+			return nil, fmt.Errorf("%s: %w", st, err)
+		}
+	}
+	return l.inspect()
+}
